@@ -40,6 +40,10 @@ CLAIMED = {
          "ordering (truncate once, append, reset after flush on every path, final flush), no class-level / rebound module state in the result. "
          "Byte equality of concrete outputs is not decided", "4 C18",
          "ownership/alias analysis over the value-flow graph (copy edges, one level of object sensitivity), memo-key and typestate lints, ordering lints (R-PURE, R-MEMO, R-ORDER, R-GLOBAL)"),
+ "C19": ("complete decision for sheXer's own code, all inputs and hash seeds: no set iteration order, random value, clock, hash()/id() or "
+         "rebound global can flow to an API result or written file on any API-reachable path, except randomness after the four documented "
+         "default prefixes are exhausted. Nondeterminism inside rdflib/SPARQLWrapper is outside the analysed program", "4 C19",
+         "source-to-sink dataflow over the value-flow graph with reachability (R-DET), commutative-loop recognition, global-state lint (R-GLOBAL)"),
 }
 NA_REASON = {
  "C08": "relates the outputs of different parsers (rdflib readers, two hand-written scanners, TSV splitter, decompressors) on "
